@@ -428,6 +428,41 @@ func runC11(c *core.Ctx) {
 		}
 	}
 
+	// 4b. every algorithm identifier of the dictionary in every position that names an algorithm, one at a time
+	for _, b := range bases {
+		if b.pt == nil {
+			continue
+		}
+		for _, path := range []string{"./EncryptionMethod", "./KeyInfo/EncryptedKey/EncryptionMethod", "./KeyInfo/EncryptedKey/EncryptionMethod/DigestMethod", "+DigestMethod", "+MGF"} {
+			for _, uri := range algURIs {
+				if !mine() {
+					continue
+				}
+				el := b.el.Copy()
+				var target *etree.Element
+				switch path {
+				case "+DigestMethod": // a DigestMethod where there was none (or a second one)
+					if em := el.FindElement("./KeyInfo/EncryptedKey/EncryptionMethod"); em != nil {
+						target = em.CreateElement("ds:DigestMethod")
+					}
+				case "+MGF":
+					if em := el.FindElement("./KeyInfo/EncryptedKey/EncryptionMethod"); em != nil {
+						target = em.CreateElement("xenc11:MGF")
+						target.CreateAttr("xmlns:xenc11", "http://www.w3.org/2009/xmlenc11#")
+					}
+				default:
+					target = el.FindElement(path)
+				}
+				if target == nil {
+					continue
+				}
+				target.CreateAttr("Algorithm", uri)
+				c11Decrypt(c, fmt.Sprintf("%s|algorithm-dictionary %s=%q", b.name, path, uri), el, b.key, "")
+				c.Count("algorithm_dictionary_cases")
+			}
+		}
+	}
+
 	// 5. structural mutations x key kinds
 	nmut := c.Pick(60000, 1500000)
 	for i := 0; i < nmut/c.NShards; i++ {
